@@ -76,10 +76,11 @@ using FSM = Mk<std::make_index_sequence<N>>::FSM;
 	void exitGuard(GuardControl& c) { rec(SID, M_XG, c.stateId(), this); } \
 	void exit(PlanControl& c) { rec(SID, M_EXIT, c.stateId(), this); }
 static bool g_succeed_in_update = false; static int g_plan_ok = 0, g_plan_fail = 0;
+static bool g_veto_entry = false;   // every state's entry guard vetoes while set
 // every state object carries a few bytes of user data: the library never touches them
 template <int I> struct St : FSM::State {
 	uint8_t mark[3] = {static_cast<uint8_t>(0xC0 ^ I), 0x5A, static_cast<uint8_t>(0xA5 + I)};
-	void entryGuard(GuardControl& c) { rec(I, M_EG, c.stateId(), this); }
+	void entryGuard(GuardControl& c) { rec(I, M_EG, c.stateId(), this); if (g_veto_entry) c.cancelPendingTransition(); }
 	void enter(PlanControl& c) { rec(I, M_ENTER, c.stateId(), this); }
 	void reenter(PlanControl& c) { rec(I, M_REENTER, c.stateId(), this); }
 	void preUpdate(FullControl& c) { rec(I, M_PRE_UPDATE, c.stateId(), this); }
@@ -331,6 +332,26 @@ static void plan_sweep() {
 		{ auto p = q.plan(); if (p) violation("plan-outcome", rp, "N=%d: plan not empty after planFailed", N); } }
 	check_marks(q, rp, "after a failed plan");
 	q.~Inst();
+	// success reports are kept per state, whatever the state's id: for states at both ends and around the multiples of eight
+	if (N >= 3) { const int cand[] = {0, 1, 6, 7, 8, 9, 15, 16, 17, 63, 64, 65, N - 2, N - 1}; int done[16]; int nd = 0;
+		for (int ci = 0; ci < 14; ++ci) { const int s = cand[ci]; if (s < 0 || s >= N) continue; bool dup = false; for (int k = 0; k < nd; ++k) dup |= done[k] == s; if (dup) continue; done[nd++] = s;
+			const ffsm2::StateID S = static_cast<ffsm2::StateID>(s), X = static_cast<ffsm2::StateID>((s + 1) % N), T = static_cast<ffsm2::StateID>((s + 2) % N);
+			{ // (a) a report outstanding for the active state survives the cycles in which the task at the head of the plan belongs to another state
+				activate(0); Inst& a = *inst(0); if (s) a.immediateChangeTo(S); g_plan_ok = g_plan_fail = 0;
+				{ auto p = a.plan(); p.change(X, T); p.change(S, T); }
+				a.succeed(S); g_n = 0; a.update(); g_n = 0; a.update(); ++me().cases;
+				if (a.activeStateId() != s || g_plan_ok || g_plan_fail) violation("plan-walk", rp, "N=%d: state %d succeeded while the first task belongs to state %d: active %d, planSucceeded x%d planFailed x%d", N, s, (s + 1) % N, a.activeStateId(), g_plan_ok, g_plan_fail);
+				else { { auto p = a.plan(); auto it = p.begin(); if (it) it.remove(); } g_n = 0; a.update(); ++me().cases;
+					if (a.activeStateId() != T) violation("plan-report-lost", rp, "N=%d: success of state %d was reported and never consumed, its task %d>%d is first in the plan now and did not fire (active %d)", N, s, s, (s + 2) % N, a.activeStateId()); }
+				a.~Inst(); }
+			{ // (b) a report is consumed by the task it fires, also when the transition that task requests is vetoed
+				activate(0); Inst& b = *inst(0); if (s) b.immediateChangeTo(S); g_plan_ok = g_plan_fail = 0;
+				{ auto p = b.plan(); p.change(S, T); }
+				b.succeed(S); g_veto_entry = true; g_n = 0; b.update(); g_veto_entry = false; ++me().cases;
+				if (b.activeStateId() != s) violation("plan-walk", rp, "N=%d: vetoed task transition %d>%d was applied", N, s, (s + 2) % N);
+				else { { auto p = b.plan(); p.change(S, T); } g_n = 0; b.update(); ++me().cases;
+					if (b.activeStateId() != s || g_plan_ok || g_plan_fail) violation("plan-report-stale", rp, "N=%d: the success of state %d was consumed by the task it fired (whose transition was vetoed); a new task %d>%d fired / an outcome was delivered without a new report (active %d, planSucceeded x%d, planFailed x%d)", N, s, s, (s + 2) % N, b.activeStateId(), g_plan_ok, g_plan_fail); }
+				b.~Inst(); } } }
 }
 #endif
 #if VX_HIST && !VX_MANUAL
